@@ -13,6 +13,7 @@ type SpecEnv struct {
 	c        *Ctx
 	cur, old *State
 	vars     map[string]Val
+	factSeen map[string]bool
 	scopePos token.Pos // position used to resolve Go locals (loop invariants)
 	pkg      *Pkg      // package whose contract file the expression comes from
 	facts    []Term    // typing facts of values read (true by construction)
@@ -209,7 +210,14 @@ func (e *SpecEnv) specLoad(prefix string, t types.Type, ref, idx Term) Val {
 	v := c.load(ls, prefix, t, ref, idx)
 	c.noName--
 	if e.qdepth == 0 && ls.pc.S != "true" {
-		e.facts = append(e.facts, ls.pc)
+		// the same load is evaluated many times in one clause: keep each well-formedness fact once
+		if e.factSeen == nil {
+			e.factSeen = map[string]bool{}
+		}
+		if !e.factSeen[ls.pc.S] {
+			e.factSeen[ls.pc.S] = true
+			e.facts = append(e.facts, ls.pc)
+		}
 	}
 	return v
 }
@@ -846,6 +854,20 @@ func (e *SpecEnv) call(n *SCall) Val {
 	case "bytes.Compare":
 		a, b := e.toSeq(e.eval(n.Args[0])), e.toSeq(e.eval(n.Args[1]))
 		return c.bytesCompare(a, b)
+	case "unbox":
+		// unbox(x, T): the *T stored in interface value x (interfaces hold whole-object pointers, see coerce)
+		id, ok := n.Args[1].(*SIdent)
+		if !ok || len(n.Args) != 2 {
+			e.fail("unbox(x, T) expected")
+		}
+		t := c.resolveTypeTextIn(id.Name, e.pkg)
+		switch s := e.eval(n.Args[0]).(type) {
+		case Scalar:
+			return Ptr{s.T, c.idx(0), t}
+		case Ptr:
+			return Ptr{s.Ref, s.Idx, t}
+		}
+		e.fail("unbox: interface value expected")
 	case "rawbytes":
 		// the in-memory bytes of an integer value as seen through an unsafe byte view (see evalConversion)
 		s, ok := e.eval(n.Args[0]).(Scalar)
